@@ -312,8 +312,9 @@ func (t tMapPayload) Tags() ([]PointerTag, error) {
 // payload kinds handled at the top level of Process: untagged map, Taggable map, []string, *string, string
 func H_C09_toplevel() {
 	c := symEnv()
-	kind := symLen(0, 5)
+	kind := symLen(0, 6)
 	a, b := nondetString(), nondetString()
+	var refs *pNested
 	var e = newEvent(nil)
 	switch kind {
 	case 0:
@@ -330,8 +331,15 @@ func H_C09_toplevel() {
 	case 5:
 		// a struct passed by value (its fields are not settable through reflection)
 		e.Payload = pLeaf{Sec: a, Untag: b}
+	case 6:
+		// a struct passed by value that holds references: the caller's map, slice and pointee must stay untouched
+		refs = &pNested{Inner: &pLeaf{Sec: a}, List: []string{b}, M: map[string]interface{}{"k": a}}
+		e.Payload = *refs
 	}
 	out, err := c.ef.Process(context.Background(), e)
+	if refs != nil {
+		verifAssert(refs.Inner.Sec == a && refs.List[0] == b && refs.M["k"].(string) == a, "C10.toplevel.by-value-struct-references-untouched")
+	}
 	if c.o.allNone() || (c.w == nil && c.o.needsWrapper()) {
 		return
 	}
@@ -386,6 +394,15 @@ func H_C09_toplevel() {
 	case 4:
 		// a bare non-empty string payload cannot be rewritten in place: forwarding it would leak it
 		verifAssert(a == "", "C09.toplevel.bare-string-not-forwarded")
+	case 6:
+		p, ok := out.Payload.(pNested)
+		verifAssert(ok && p.Inner != nil && p.Inner != refs.Inner && len(p.List) == 1 && len(p.M) == 1, "C10.toplevel.by-value-struct-deep-copied")
+		if ok && p.Inner != nil && len(p.List) == 1 {
+			c.checkLeaf(p.Inner.Sec, a, "secret", NoOperation, "C09.toplevel.by-value-struct.inner")
+			c.checkLeaf(p.List[0], b, "sensitive", NoOperation, "C09.toplevel.by-value-struct.list")
+			v, _ := p.M["k"].(string)
+			c.checkLeaf(v, a, "", NoOperation, "C09.toplevel.by-value-struct.map")
+		}
 	case 5:
 		if a == "" && b == "" {
 			// the zero value of the struct: a zero payload is forwarded unchanged (C10)
